@@ -53,38 +53,11 @@ theorem tie_sepBy_lookup (v s : G) (ae : Bool) (o : SeqOpts) (sh : SeqShape) (h 
   rw [hv]
   by_cases hi : i % 2 = 0 <;> simp [hi]
 
-/-- Memoize's curtailment test (the model compares with `remaining + Facts.curtailSlack`) -/
-theorem tie_curtails (cnt rem : Nat) : decide (cnt > rem + Facts.curtailSlack) = FactsFn.curtails cnt rem := by
-  rw [Bool.eq_iff_iff]
-  simp [FactsFn.curtails, Facts.curtailSlack] <;> omega
-
-/-- ResultCache.Get's reuse test, per stored key -/
-theorem tie_cacheGet (c : List CacheEntry) (idx pos : Nat) (ctx : Ctx) :
-    cacheGet c idx pos ctx =
-      match c.find? (fun e => e.idx == idx && e.pos == pos) with
-      | none => none
-      | some e => if e.ctx.all (fun kv => !FactsFn.cacheRejects kv.2 (ctx.get kv.1)) then some e else none := by
-  have hr : ∀ a b : Nat, FactsFn.cacheRejects a b = decide (a > b) := by
-    intro a b; rw [Bool.eq_iff_iff]; simp [FactsFn.cacheRejects] <;> omega
-  simp only [cacheGet, hr]
-  cases List.find? (fun e => e.idx == idx && e.pos == pos) c <;> rfl
-
-/-- the sequence resets the left-recursion context exactly when the translated test says so -/
-theorem tie_seqResets (fr_pos : Nat) (n : Node) : decide (n.rpos > fr_pos) = FactsFn.seqResets n.rpos fr_pos := by
-  rw [Bool.eq_iff_iff]
-  simp [FactsFn.seqResets] <;> omega
-
-/-- Context.SetError -/
-theorem tie_setError (st : St) (e : Err) :
-    st.setError (some e) =
-      if FactsFn.setErrorTakes st.ctxErr.isNone e.pos ((st.ctxErr.map Err.pos).getD 0) then { st with ctxErr := some e } else st := by
-  have ht : ∀ (b : Bool) (x y : Nat), FactsFn.setErrorTakes b x y = (b || decide (x ≥ y)) := by
-    intro b x y; rw [Bool.eq_iff_iff]; cases b <;> simp [FactsFn.setErrorTakes] <;> omega
-  unfold St.setError
-  cases h : st.ctxErr with
-  | none => simp [ht]
-  | some c =>
-    simp only [ht, Option.isNone_some, Bool.false_or, Option.map_some, Option.getD_some]
-    by_cases hp : e.pos ≥ c.pos <;> simp [hp]
+/- (the ties of Memoize's curtailment test, ResultCache.Get's reuse test, the sequence's context-reset test and
+   Context.SetError's test to single translated expressions stood here.  They are subsumed: the four functions are translated
+   whole on every run (Generated/FactsCore.lean) and the model's run cases are proved to agree with the translated bodies —
+   Proofs/CoreTieMemo.lean `tie_Memoize`, CoreTieCache.lean `tie_Get`, CoreTieSeq.lean (parseNext), CoreTieCtx.lean
+   `tie_SetError`; Props/C01P.lean — and that tie, unlike the search for one `if` in the source text, is not broken when the
+   function is restructured without changing what it computes.) -/
 
 end PV
